@@ -774,6 +774,14 @@ class FD:
                         return args[2]
                     raise
             raise Inconclusive('fdeval: %s on %r' % (name, o))
+        if name in ('len', 'bool', 'str', 'repr', 'iter') and name not in env and len(e.args) == 1 and not e.keywords:
+            # a builtin applied to a model instance of a pedal class that defines the corresponding dunder
+            v = self.eval(e.args[0], env)
+            if isinstance(v, Obj) and '__classdef__' in v.attrs and ('method:__%s__' % name) not in v.attrs:
+                m = self.class_method(v, '__%s__' % name)
+                if m is not None:
+                    return m()
+            e = ast.Call(func=e.func, args=[_Lit(v)], keywords=[])
         if name in self.functions:
             args = [self.eval(a, env) for a in e.args]
             kwargs = {k.arg: self.eval(k.value, env) for k in e.keywords}
